@@ -77,12 +77,11 @@ func (s *arraiServer) Observe(req *pb.ObserveReq, stream pb.Arrai_ObserveServer)
 	}
 	retch := make(chan error)
 
+	// A failed send is reported to the engine only: it drops the observer and
+	// calls onclose with the error, which ends this call. Sending to retch here as
+	// well would leave onclose blocked, and with it the engine.
 	send := func(resp *pb.ObserveResp) error {
-		if err = stream.Send(resp); err != nil {
-			retch <- err
-			return err
-		}
-		return nil
+		return stream.Send(resp)
 	}
 
 	onupdate := func(value rel.Value) error {
